@@ -18,6 +18,12 @@ R6  the first yylex() call keeps a start condition selected before it (yybegin()
     (the first-call initialisation) is control dependent, on the CFG, on the zero edge of a test "start state == 0" of
     the same register, and no other store of the register lies between that test and the store.  The initialisation
     may only give a default to a scanner that has none yet.
+R7  the <<EOF>> action is chosen from the start condition in force when end of file is processed, i.e. AFTER yywrap()
+    ran (yywrap may call yybegin() / yy_push_state()).  In yylex of every variant, the value of every read of the start
+    state (load of the register, or call of yystart()) that flows - through registers and locals - into the EOF action
+    number YY_END_OF_BUFFER + yystart() + 1 is live from the read to the store of the action number and from there, in
+    the local that holds the action number, to the dispatch that loads it: no call of yywrap (or of a scanner function
+    that transitively stores the register) may lie on that range.  Value flow and path queries, not statement order.
 """
 import re
 import ir, flow, variants
@@ -69,9 +75,14 @@ def eof_action_stores(sc, fn):
         if cs_: out.append((cs_[0], x))
     return out
 
+def scanner_yylex(sc):
+    """the yylex that contains the scanner (C++ with yyclass has a stub as well)"""
+    fs = [f for f in sc.fns('yylex') if action_switch(f) is not None]
+    return fs[0] if fs else None
+
 def eob_constant(sc, fn):
     """YY_END_OF_BUFFER: the constant added to yystart() where yylex forms the EOF action number; returns (constant, first store)"""
-    l = eof_action_stores(sc, fn)
+    l = eof_action_stores(sc, fn) or eof_action_stores_deep(sc, fn)     # (the state may be kept in a local first)
     return l[0] if l else (None, None)
 
 # ---------------------------------------------------------------- R1
@@ -589,13 +600,92 @@ def r6(ctx, sc):
                                       'input "a" must return 1, returns 2 when the first call resets the start state')
     return n
 
+# ---------------------------------------------------------------- R7
+
+def start_state_writers(sc):
+    """names of the functions of the scanner that store the start state, directly or through the functions they call"""
+    g = sc.callgraph()
+    w = {f.name for f in sc.mod.functions.values() if stores_of(sc, f, 'yy_start')}
+    changed = True
+    while changed:
+        changed = False
+        for n, cs_ in g.items():
+            if n not in w and cs_ & w: w.add(n); changed = True
+    return w
+
+def eof_action_stores_deep(sc, fn):
+    """like eof_action_stores, but the start state may reach the sum  <constant> + state + 1  through a local
+    (`s = yystart(); ... yy_act = YY_STATE_EOF(s)`): list of (constant, store)"""
+    out = list(eof_action_stores(sc, fn)); have = {x for _, x in out}
+    res = ir.Resolver(fn)
+    for x in fn.ins:
+        if x.op != 'store' or x in have: continue
+        d = fn.def_of(x.ops[1])
+        if d is None or d.op != 'alloca': continue
+        cs_ = [o[1] for y in flow.value_slice(fn, x.ops[0]) if y.op == 'add' for o in y.ops if o[0] == 'int' and o[1] > 1]
+        if not cs_: continue
+        if any((y.op == 'load' and sc.is_var(res.loc(y.ops[0]), 'yy_start')) or (y.op in ('call', 'invoke') and sc.callee(y) == 'yystart') for y in S.deep_slice(fn, x.ops[0])):
+            out.append((cs_[0], x))
+    return out
+
+def r7(ctx, sc):
+    """the start state that selects the <<EOF>> action is read after the last call that can change it (yywrap)"""
+    rep = ctx.rep; v = sc.v; n = 0
+    writers = None
+    for f in sc.fns('yylex'):
+        if action_switch(f) is None: continue                 # yyclass stub
+        Es = eof_action_stores_deep(sc, f)
+        if not Es: rep.broken('C05.R7: EOF action assignment not found in yylex of %s' % v.name)
+        if writers is None: writers = start_state_writers(sc)
+        res = ir.Resolver(f); cfg = sc.prog.cfg(f)
+        hazards = []
+        for c in f.ins:
+            if c.op not in ('call', 'invoke'): continue
+            cn = sc.callee(c)
+            if cn is None: continue
+            if cn == 'yywrap' or any(g.name in writers for g in sc.fns(cn)): hazards.append(c)
+        for K, E in Es:
+            n += 1
+            srcs = [y for y in S.deep_slice(f, E.ops[0])
+                    if (y.op == 'load' and sc.is_var(res.loc(y.ops[0]), 'yy_start')) or (y.op in ('call', 'invoke') and sc.callee(y) == 'yystart')]
+            if not srcs: rep.broken('C05.R7: the EOF action number in yylex of %s is not computed from the start state' % v.name)
+            key = sc.key('C05.R7', 'yylex', 'eof-action:start-state-read-before-yywrap')
+            # the value read at a source is live from the read to the store of the action number, and from there - in the local
+            # that holds the action number - to every load of that local not preceded by another store: no hazard on that range
+            ystores = [y for y in f.ins if y.op == 'store' and y.ops[1] == E.ops[1]]
+            yloads = [y for y in f.ins if y.op == 'load' and y.ops[0] == E.ops[1]]
+            stale = []
+            for h in hazards:
+                if h in srcs: continue
+                after = cfg.reach(h, avoid=srcs)
+                if E in after and any(h in cfg.reach(l_, avoid=srcs) for l_ in srcs): stale.append(h); continue
+                if h in cfg.reach(E, avoid=ystores) and any(u in cfg.reach(h, avoid=ystores) for u in yloads): stale.append(h)
+            if stale:
+                h = stale[0]
+                for h_ in stale:
+                    if sc.callee(h_) == 'yywrap': h = h_
+                rep.fail('C05.R7', key, where(E),
+                         'yylex forms the <<EOF>> action number from a start state read (%s) before the call of %s() (%s), which may change the start condition '
+                         '(yybegin() / yy_push_state() in the user\'s yywrap): the <<EOF>> rule of the condition left behind runs, and yystart() inside it names another '
+                         'condition [variant %s]' % (where(srcs[0]), sc.callee(h), where(h), v.name),
+                         witness=['%s:%s' % (i.blk.name, i.line) for i in (cfg.path(srcs[0], lambda y: y is h) or [])], variant=v.describe(),
+                         replay_input='%x TAIL\n%%\n<INITIAL><<EOF>> { puts("INITIAL"); return 0; }\n<TAIL><<EOF>> { puts("TAIL"); return 0; }\n.|\\n ;\n%%\n'
+                                      'int yywrap(void) { yybegin(TAIL); return 1; }   -- end of input must print TAIL')
+            elif not hazards:
+                rep.vacuous.append('C05.R7 %s yylex: no call in yylex can change the start state (noyywrap, no start-condition calls)' % v.name)
+                rep.ok('C05.R7', '%s yylex: EOF action @%s from the start state read @%s; no call of yylex can change the start state' % (v.name, E.line, srcs[0].line))
+            else:
+                rep.ok('C05.R7', '%s yylex: EOF action @%s uses the start state read @%s, behind every one of the %d calls that can change it (yywrap%s)' % (
+                    v.name, E.line, srcs[0].line, len(hazards), '' if any(sc.callee(h) == 'yywrap' for h in hazards) else ' is a constant here'))
+    return n
+
 # ---------------------------------------------------------------- driver
 
 def run(ctx):
     rep = ctx.rep
     vs = ctx.variants()
     rep.require(len(vs) >= 100, 'only %d scanner variants compiled to IR' % len(vs))
-    n1 = n2 = n4 = n6 = 0; stackv = 0; backs6 = set()
+    n1 = n2 = n4 = n6 = n7 = 0; stackv = 0; backs6 = set(); backs7 = set()
     kins, K = r4_generator(ctx)
     rep.ok('C05.R4', 'dfa.c:%s ntod: num_start_states = lastsc * %d' % (kins.line, K))
     backs = set()
@@ -610,9 +700,13 @@ def run(ctx):
         k = r6(ctx, sc)
         if k: backs6.add(v.backend)
         n6 += k
+        k = r7(ctx, sc)
+        if k and sc.calls(scanner_yylex(sc), 'yywrap'): backs7.add(v.backend)
+        n7 += k
     n3 = r3(ctx)
     rep.require(backs >= {'nr', 'r', 'cxx', 'c99', 'go'}, 'C05.R2 ran only on back ends %s' % sorted(backs))
     rep.require(backs6 >= {'nr', 'r', 'cxx', 'c99', 'go'}, 'C05.R6 found a first-call initialisation of the start state only in back ends %s' % sorted(backs6))
+    rep.require(backs7 >= {'nr', 'r', 'cxx', 'c99', 'go'}, 'C05.R7 found a yylex that calls yywrap only in back ends %s' % sorted(backs7))
     rep.setcount('variants_analysed', len(vs))
     rep.setcount('variants_with_start_stack', stackv)
     rep.setcount('functions_checked_for_yy_start_writes', n1)
@@ -621,6 +715,7 @@ def run(ctx):
     rep.floor('C05.R3', 6, '5 distribution stores + the <*> loop in parse.y')
     rep.floor('C05.R4', 250, 'ntod + >=2 sites in every variant with start-condition functions')
     rep.floor('C05.R6', 115, 'one first-call initialisation store in yylex of each of >=115 variants')
+    rep.floor('C05.R7', 115, 'one EOF action assignment in yylex of each of >=115 variants')
     rep.undecided += ['which rules are active for a given input in a given start condition (value-level: NFA construction)',
                       'LIFO order of the values on the start-condition stack',
                       'user code that assigns yy_start directly']
@@ -635,4 +730,5 @@ def run(ctx):
         'C++ virtual calls resolved through the class vtable); relational check of the bounds guards of the start-condition stack (edge predicate over '
         'the same register, tracked through the increments/decrements); control-dependence check of the rule-distribution loops in the IR of parse.c; '
         'constant agreement between dfa.c:ntod and the runtime start-state arithmetic; control dependence of the first-call initialisation of the '
-        'start state in yylex on a test of the same register against 0.' % len(vs))
+        'start state in yylex on a test of the same register against 0; value flow of the start state into the EOF action number and must-pass-through of '
+        'its read behind every call that can change it (yywrap).' % len(vs))
